@@ -437,8 +437,6 @@ def _setup(point):
     import math
 
     Ls = [float(point.get(k, d)) for k, d in (("Lc", 0.3), ("Lb", -0.4), ("Lt", 0.5))]
-    if "Lq" in point:
-        Ls = [float(point["Lq"])] * 3
     if any(abs(x) > 1.39 for x in Ls):
         return None
     ratios = [math.exp(x) for x in Ls]
